@@ -358,12 +358,26 @@ def actor_base():
 
 
 def make_actor_class(spec):
+    """Actor class for one spec.  spec["extends"] names another actor of the scenario: the class then
+    derives from that actor's class (exercises the same-function replacement rule of addInterface)."""
     base = actor_base()
-    return type(
+    parent = base
+    if spec.get("extends"):
+        for other in SCENARIO.get("actors", []):
+            if other["name"] == spec["extends"]:
+                parent = make_actor_class(other)
+                break
+    key = (spec["name"], spec.get("function"), spec.get("extends"))
+    cache = SCENARIO.setdefault("_classes", {})
+    if key in cache and cache[key][0] is parent:
+        return cache[key][1]
+    cls = type(
         "SimActor_" + spec["name"],
-        (base,),
+        (parent,),
         {"name": spec["name"], "function": spec.get("function"), "spec": spec},
     )
+    cache[key] = (parent, cls)
+    return cls
 
 
 def wrap_builtins(o, director):
